@@ -44,6 +44,8 @@ type Entry struct {
 	NewTypedWriter        func(w io.Writer, opts ...parquet.WriterOption) StatefulWriter
 	NewTypedSortingWriter func(w io.Writer, sortRowCount int64, opts ...parquet.WriterOption) StatefulWriter
 	NewTypedBuffer        func(opts ...parquet.RowGroupOption) StatefulBuffer
+	// RowBuffer[T] holding the rows (reuse.go / typed.go)
+	NewRowBufferOf func(rows any, opts ...parquet.RowGroupOption) (parquet.RowGroup, error)
 }
 
 var Catalog []*Entry
